@@ -265,6 +265,14 @@ func (env *SpecEnv) binderSort(tn string) (*Sort, types.Type) {
 	if tn == "byte" {
 		return vc.intSort(8), types.Typ[types.Uint8]
 	}
+	// a name given to a type literal with '//@ type NAME = ...'
+	if vc.P != nil {
+		if expr, ok := vc.P.TypeAlias[tn]; ok {
+			if t := env.typeExpr(expr); t != nil {
+				return vc.sortOf(t), t
+			}
+		}
+	}
 	// named type of the current package, or pkg.Type of an imported package
 	if env.pkg != nil {
 		if o := env.pkg.Scope().Lookup(tn); o != nil {
@@ -286,6 +294,43 @@ func (env *SpecEnv) binderSort(tn string) (*Sort, types.Type) {
 	}
 	env.fail("unknown binder type %s", tn)
 	return nil, nil
+}
+
+// typeExpr builds a Go type from map[K]V, []T, *T and type names.
+func (env *SpecEnv) typeExpr(s string) types.Type {
+	s = strings.TrimSpace(s)
+	switch {
+	case strings.HasPrefix(s, "map["):
+		depth := 0
+		for i := 3; i < len(s); i++ {
+			switch s[i] {
+			case '[':
+				depth++
+			case ']':
+				depth--
+				if depth == 0 {
+					k, v := env.typeExpr(s[4:i]), env.typeExpr(s[i+1:])
+					if k == nil || v == nil {
+						return nil
+					}
+					return types.NewMap(k, v)
+				}
+			}
+		}
+		return nil
+	case strings.HasPrefix(s, "[]"):
+		if e := env.typeExpr(s[2:]); e != nil {
+			return types.NewSlice(e)
+		}
+		return nil
+	case strings.HasPrefix(s, "*"):
+		if e := env.typeExpr(s[1:]); e != nil {
+			return types.NewPointer(e)
+		}
+		return nil
+	}
+	_, t := env.binderSort(s)
+	return t
 }
 
 func (env *SpecEnv) ident(name string) SVal {
